@@ -31,3 +31,28 @@ Proof. repeat split; vm_compute; try reflexivity; lia. Qed.
     calls goes through [analyze] (which counts: ++depth > SEXP_MAX_ANALYZE_DEPTH) or passes depth+1 *)
 Lemma analyze_cycles_increment_depth_proof : graph_ok analyze_nfun analyze_edges = true /\ 25 <= length analyze_edges.
 Proof. split; [vm_compute; reflexivity | vm_compute; lia]. Qed.
+
+(** rank certificate (regenerated): along every call that passes depth on unchanged the rank strictly decreases;
+    hence between two increments of the analyzer's depth counter at most [rank v] <= 6 activations pile up *)
+Lemma analyze_rank_certificate_proof : forallb (edge_ok (fun v => nth v analyze_rank 0)) analyze_edges = true.
+Proof. vm_compute. reflexivity. Qed.
+
+Lemma analyze_same_chain_bounded_proof : forall p v, same_chain analyze_edges v p -> length p <= nth v analyze_rank 0.
+Proof.
+  intros p v.
+  exact (same_chain_bounded_proof (fun v => nth v analyze_rank 0) analyze_edges analyze_rank_certificate_proof p v).
+Qed.
+
+(** equal?: the depth argument counts down from SEXP_DEFAULT_EQUAL_DEPTH and the function returns when it is
+    negative: the same bounded-counter discipline with WB = depth + 1 *)
+Lemma equal_recursion_bounded_proof : forall (p : list site) f',
+  (forall s, In s p -> In s (map snd equal_sites)) ->
+  run (Z.to_nat equal_depth + 1) (Bounded 0) p = Some f' ->
+  (Z.of_nat (length p) <= equal_depth + 4)%Z.
+Proof.
+  intros p f' Hin Hrun.
+  pose proof (write_depth_bounded_proof (Z.to_nat equal_depth + 1) (map snd equal_sites) p f'
+                (proj1 equal_strip_sites_pass_bound_proof) Hin Hrun) as H.
+  assert (Hw : (0 <= equal_depth)%Z) by (vm_compute; discriminate).
+  lia.
+Qed.
